@@ -54,6 +54,9 @@ def check_g1(pid, tier):
             from . import s3resolve
 
             obs += s3resolve.verify_field_alias(pid)
+            from . import s12config
+
+            obs += s12config.alias_obligations(pid)
             fns.append("builder.py:CodeBuilder.__get_field_alias (S8: source precedence + loop-body triple on the real AST)")
             trusted.add("S8 loop rule: the accumulator after the loop is None or the name of an Alias among the iterated annotations (invariant proved on the body)")
         except Exception as e:  # noqa
@@ -372,6 +375,12 @@ def check_g7(pid, tier):
         from . import s6key
 
         extra = extra + s6key.all_obligations(pid)  # specialisations keyed by a hash of type arguments: order independence needs an injective key
+        # eager compilation happens inside __init_subclass__, BEFORE @dataclass has processed the class (Field.kw_only is still
+        # unset): the eagerly compiled unit must satisfy the same FROM_SPEC - derived from the finished class - as a later compilation
+        from . import g1
+
+        kpts = [p for p in g1.lattice_c05("quick") if any(f.role in ("cls_kw_only", "kw_only", "after_KW_ONLY") for f in p.fields)]
+        res = res + runner.run_pool(g1.g1_task, [(pid, p) for p in kpts], chunks=4)
     obs, crashes, trusted = _collect(res)
     obs += extra
     return runner.finish(
